@@ -780,6 +780,20 @@ def check_search(prog, rep, m, c):
             'the priority must be the NEW cost-from-start plus a heuristic that never overestimates the Euclidean distance from '
             'the neighbour to the goal; ' + whyf)
     c.roles = {'G': gname, 'F': fname, 'PY': PY[0] if PY else None, 'PX': PX[0] if PX else None, 'OPEN': OPEN.name, 'CLOSED': CLOSED.name}
+    # the cost arrays hold sums of sqrt(2)-steps and Euclidean heuristics: they must be floating whatever the surface's dtype
+    for role, nm_ in (('g (cost from start)', gname), ('f (priority)', fname)):
+        arr_ = k.arrays.get(nm_) if nm_ else None
+        if arr_ is None:
+            continue
+        dt = getattr(arr_, 'dtype', None)
+        dtxt = dt.replace(' ', '') if isinstance(dt, str) else dt
+        okdt = isinstance(dtxt, str) and dtxt in ('np.float64', 'numpy.float64', 'float', 'np.float32', "'f8'", "'float64'", 'np.double')
+        if arr_.init == 'param':
+            continue
+        rep.add('A5', f, ENTRY, 'cost array %s: %s allocated with dtype %s' % (role, nm_, dt), getattr(getattr(arr_, 'alloc_node', None), 'lineno', f.node.lineno),
+                okdt if (okdt or (isinstance(dt, tuple) and dt and dt[0] == 'like') or dt is None) else None,
+                'g and f are real-valued (diagonal steps, Euclidean heuristic): an array that takes the surface\'s dtype truncates them on '
+                'integer rasters - the goal is then popped with a path that is not the shortest')
     # the min-cost helper is applied to (f, open)
     if c.min_func is not None and fname is not None:
         args = sel[0][1]
